@@ -296,6 +296,26 @@ func c18Block(c *evid.Ctx, seed int64) {
 			logs = append(logs, l)
 			next++
 		}
+		// now and then the underlying store refuses the batch once (nothing is stored, no
+		// report may result from it); the same entries are then sent again
+		if rng.Intn(5) == 0 {
+			var cp []*raft.Log
+			for _, l := range logs {
+				cp = append(cp, model.CopyLog(l))
+			}
+			n.Faulty.FailNextStore(vsim.ErrInjected)
+			if err := n.Store(cp); err == nil {
+				c.Violation("C18:store-error-swallowed", "the underlying store refused a batch but the middleware's StoreLogs returned nil", map[string]any{"seed": seed})
+				return false
+			}
+			for _, l := range cp {
+				delete(n.Written, l.Index)
+			}
+			c.Count("refused_batches", 1)
+			if ncp > 0 {
+				c.Distinct("call_classes", "block|refused-checkpoint-batch")
+			}
+		}
 		done := make(chan error, 1)
 		go func() { done <- n.Store(logs) }()
 		select {
